@@ -229,6 +229,9 @@ func (r *NgReader) readOption() error {
 			}
 		}
 		r.currentBlock.length -= uint32(length)
+	} else {
+		// an empty value, not the previous option's
+		r.currentOption.value = r.currentOption.value[:0]
 	}
 	return nil
 }
@@ -398,13 +401,17 @@ OPTIONS:
 			intf.Description = string(r.currentOption.value)
 		case ngOptionCodeInterfaceFilter:
 			// ignore filter type (first byte) since it is not specified
-			intf.Filter = string(r.currentOption.value[1:])
+			if len(r.currentOption.value) > 0 {
+				intf.Filter = string(r.currentOption.value[1:])
+			}
 		case ngOptionCodeInterfaceOS:
 			intf.OS = string(r.currentOption.value)
 		case ngOptionCodeInterfaceTimestampOffset:
 			intf.TimestampOffset = r.getUint64(r.currentOption.value[:8])
 		case ngOptionCodeInterfaceTimestampResolution:
-			intf.TimestampResolution = NgResolution(r.currentOption.value[0])
+			if len(r.currentOption.value) > 0 {
+				intf.TimestampResolution = NgResolution(r.currentOption.value[0])
+			}
 		}
 	}
 	if err := r.discard(int(r.currentBlock.length)); err != nil {
@@ -597,6 +604,9 @@ OPTIONS:
 			flags.FromUint32(binary.LittleEndian.Uint32(r.currentOption.value))
 			opts.Flags = &flags
 		case ngOptionCodeEpbHash:
+			if len(r.currentOption.value) == 0 {
+				return opts, errors.New("pcapng: empty epb_hash option")
+			}
 			v := make([]byte, len(r.currentOption.value)-1)
 			copy(v, r.currentOption.value[1:])
 			opts.Hashes = append(opts.Hashes, NgEpbHash{
@@ -613,6 +623,9 @@ OPTIONS:
 			v := binary.LittleEndian.Uint32(r.currentOption.value)
 			opts.Queue = &v
 		case ngOptionCodeEpbVerdict:
+			if len(r.currentOption.value) == 0 {
+				return opts, errors.New("pcapng: empty epb_verdict option")
+			}
 			v := make([]byte, len(r.currentOption.value)-1)
 			copy(v, r.currentOption.value[1:])
 			opts.Verdicts = append(opts.Verdicts, NgEpbVerdict{
